@@ -189,11 +189,13 @@ CLAIMED['C17'] = dict(
           'rows; a mapping inverting the injected permutation field restores the rows); the ideal mask-based noise PSD sum_j sig_j '
           'a_j a_j^H + nu I has quadratic form sum_j sig_j |v^H a_j|^2 + nu |v|^2, is Hermitian PSD; conditional leakage bound: for '
           'any distortionless zero-forcing competitor v every interferer leaks at most nu |v|^2 through the MVDR vector (from MVDR '
-          'optimality). The stages are the objects of C01, C08, C10-C16. NOT proved: the 99 % / 30 dB thresholds (statistical '
+          'optimality); all interferers plus the output noise together are <= nu |v|^2 too (total bound), and the threshold form: '
+          'a target level sk >= T nu |v|^2 gives output target power >= T (interference + noise), T = 1000 being the 30 dB of the '
+          'property, with the target passing undistorted. The stages are the objects of C01, C08, C10-C16. NOT proved: the 99 % / 30 dB thresholds (statistical '
           'statements about random scenes) - EXPLORED: the whole documented chain (per-frequency cACGMM / cWMM from a per-frequency '
           'permuted blurred partition, DHTV, oracle global alignment, mask-based PSDs, every listed beamformer) runs on generated '
-          'scenes from the stated domain and the property predicate is evaluated; the leakage bound is evaluated inside Coq on the '
-          "scene's ideal PSDs."),
+          'scenes from the stated domain and the property predicate is evaluated; the per-interferer and the total leakage bound are evaluated inside '
+          "Coq on the scene's ideal PSDs (all interferers' steering vectors and powers)."),
     design='6/C17', technique='Coq proof of bookkeeping and conditional leakage bound + end-to-end exploration of the property predicate')
 
 CLAIMED['C14'] = dict(
